@@ -68,7 +68,7 @@ impl FileSystemLayer {
                     canonical.push(std::path::MAIN_SEPARATOR);
 
                     let pattern = if let Some(p) = glob { p } else { "**/*" };
-                    let pattern = format!("{}{}", canonical, pattern);
+                    let pattern = format!("{}{}", glob::Pattern::escape(&canonical), pattern);
                     Ok(glob::glob(&pattern)?
                         .filter_map(|r| r.ok())
                         .map(|p| p.display().to_string().replace(&layer_str, ""))
@@ -91,7 +91,7 @@ impl FileSystemLayer {
                     let mut canonical =
                         full_path.normalize()?.into_path_buf().display().to_string();
                     canonical.push(std::path::MAIN_SEPARATOR);
-                    let pattern = format!("{}*", canonical);
+                    let pattern = format!("{}*", glob::Pattern::escape(&canonical));
                     Ok(glob::glob(&pattern)?
                         .filter_map(|r| r.ok())
                         .filter(|p| p.is_dir())
